@@ -86,7 +86,8 @@ CTORS = {
     "ctor_clean": ("    def __init__(self, q: int) -> None:\n        self.i{u}: int = q\n", []),
     "ctor_dirty": ("    def __init__(self, q, *args: int) -> None:\n        self.i{u} = untyped_call()\n", ["param", "variadic"]),
 }
-BASES = {"nobase": ("", []), "multi": ("(BaseA, BaseB)", ["multi"])}
+# multi_mix: a private class of the package listed AFTER the two public bases (its public method is shown in the subclass)
+BASES = {"nobase": ("", []), "multi": ("(BaseA, BaseB)", ["multi"]), "multi_mix": ("(BaseA, BaseB, _Mix{u})", ["multi"]), "mix_multi": ("(_Mix{u}, BaseA, BaseB)", ["multi"])}
 
 
 def run(rep: Report, tier: str, seed: int) -> None:
@@ -126,11 +127,14 @@ def run(rep: Report, tier: str, seed: int) -> None:
                     tmpl, es = MEMBERS[name]
                     body += tmpl.replace("{u}", u) + "\n"
                     exp += [(kind, nm.replace("{u}", u), frozenset(M[m] for m in marks)) for kind, nm, marks in es]
-                text = f"class K{u0}{btmpl}:\n" + (ctmpl.replace("{u}", u0) + "\n" if ctmpl else "") + (body if body else ("    pass\n" if not ctmpl else ""))
+                text = f"class K{u0}{btmpl.replace('{u}', u0)}:\n" + (ctmpl.replace("{u}", u0) + "\n" if ctmpl else "") + (body if body else ("    pass\n" if not ctmpl else ""))
+                if "_Mix" in btmpl:
+                    text = f"class _Mix{u0}:\n    def mixm{u0}(self) -> int:\n        return 1\n\n    def mixn{u0}(self, a: set[int]) -> int:\n        return 1\n\n\n" + text
+                    exp += [("fun", f"mixm{u0}", frozenset()), ("fun", f"mixn{u0}", frozenset([M["set"]]))]
                 units.append((f"class:{ctor}:{base}:" + ">".join(seq), text, exp))
     rep.rule = (
         f"module level: all sequences of length 1-2 over {len(names)} declaration letters (functions with each of the flagged features, classes with constructor/attribute/method/property/nested/inherited features, enum) and "
-        f"length 3 over {len(triple_letters)} letters; class bodies: all member sequences of length <= {depth} over {len(mnames)} member letters x 3 constructor variants x 2 base lists; one module per sequence; distinct = distinct sequence label"
+        f"length 3 over {len(triple_letters)} letters; class bodies: all member sequences of length <= {depth} over {len(mnames)} member letters x 3 constructor variants x 4 base lists (none; two public bases; two public bases followed / preceded by a private class of the package whose methods are shown); one module per sequence; distinct = distinct sequence label"
     )
 
     def build(us):
